@@ -15,8 +15,14 @@ Theorem C11_enc_reader_refines :
   forall (S : Stream) (plain : bytes) (Rin : st S -> N -> Prop),
     Refines S (enc_format CHUNK ks tagc plain) Rin ->
     nfull CHUNK (len plain) + 2 < 2 ^ 32 ->
+    (len plain / CHUNK + 1) * CTS CHUNK TAG <= 2 ^ 64 - 1 -> len plain < 2 ^ 63 ->
     Refines (EncReader CHUNK TAG ks tagc S) plain (Renc CHUNK TAG ks tagc S plain Rin).
 Proof. exact enc_reader_refines. Qed.
+
+Theorem C11_enc_ranges_of_sizes :
+  forall CHUNK TAG L, 0 < CHUNK -> CHUNK + TAG <= 2 ^ 31 -> nfull CHUNK L + 2 < 2 ^ 32 ->
+    (L / CHUNK + 1) * CTS CHUNK TAG <= 2 ^ 64 - 1 /\ L < 2 ^ 63.
+Proof. exact ranges_of_sizes. Qed.
 
 (* new + initialize establish the invariant from any usable inner state *)
 Theorem C11_enc_open :
@@ -25,6 +31,7 @@ Theorem C11_enc_open :
   forall (S : Stream) (plain : bytes) (Rin : st S -> N -> Prop),
     Refines S (enc_format CHUNK ks tagc plain) Rin ->
     nfull CHUNK (len plain) + 2 < 2 ^ 32 ->
+    (len plain / CHUNK + 1) * CTS CHUNK TAG <= 2 ^ 64 - 1 -> len plain < 2 ^ 63 ->
   forall i0 pin, Rin i0 pin ->
     exists s, enc_open CHUNK TAG ks tagc S i0 = (s, Ok 0) /\ Renc CHUNK TAG ks tagc S plain Rin s 0.
 Proof. exact enc_open_spec. Qed.
@@ -51,9 +58,10 @@ Theorem C11_enc_over_cursor_prod :
 Proof.
   intros ks tagc Ht plain Hb wire.
   destruct consts_ok_prod as (H1 & H2 & _).
+  destruct (ranges_of_sizes _ Src.TAG_LENGTH_prod (len plain) H1 ltac:(vm_compute; discriminate) Hb) as [Hu Hi].
   eexists. split.
-  - apply (enc_reader_refines _ _ H1 H2 ks tagc Ht (Cursor wire) plain _ (cursor_refines wire) Hb).
-  - apply (enc_open_spec _ _ H1 H2 ks tagc Ht (Cursor wire) plain _ (cursor_refines wire) Hb 0 0).
+  - apply (enc_reader_refines _ _ H1 H2 ks tagc Ht (Cursor wire) plain _ (cursor_refines wire) Hb Hu Hi).
+  - apply (enc_open_spec _ _ H1 H2 ks tagc Ht (Cursor wire) plain _ (cursor_refines wire) Hb Hu Hi 0 0).
     split; [reflexivity | lia].
 Qed.
 
@@ -66,9 +74,10 @@ Theorem C11_enc_over_cursor_verif :
 Proof.
   intros ks tagc Ht plain Hb wire.
   destruct consts_ok_verif as (H1 & H2 & _).
+  destruct (ranges_of_sizes _ Src.TAG_LENGTH_verif (len plain) H1 ltac:(vm_compute; discriminate) Hb) as [Hu Hi].
   eexists. split.
-  - apply (enc_reader_refines _ _ H1 H2 ks tagc Ht (Cursor wire) plain _ (cursor_refines wire) Hb).
-  - apply (enc_open_spec _ _ H1 H2 ks tagc Ht (Cursor wire) plain _ (cursor_refines wire) Hb 0 0).
+  - apply (enc_reader_refines _ _ H1 H2 ks tagc Ht (Cursor wire) plain _ (cursor_refines wire) Hb Hu Hi).
+  - apply (enc_open_spec _ _ H1 H2 ks tagc Ht (Cursor wire) plain _ (cursor_refines wire) Hb Hu Hi 0 0).
     split; [reflexivity | lia].
 Qed.
 
@@ -87,6 +96,7 @@ Qed.
 Check C11_enc_reader_refines.
 Print Assumptions C11_enc_reader_refines.
 Print Assumptions C11_enc_open.
+Print Assumptions C11_enc_ranges_of_sizes.
 Print Assumptions C11_end_found_for_every_length.
 Print Assumptions C11_position_roundtrip.
 Print Assumptions C11_enc_over_cursor_prod.
@@ -240,7 +250,7 @@ Proof. exact raw_open_spec. Qed.
 (* compression over encryption over raw over any source behaving as a cursor over
    header ++ enc(comp(plain)) behaves as a cursor over plain *)
 Theorem C11_stack_refines :
-  forall CHUNK TAG BLOCK LIMIT : N, 0 < CHUNK -> 0 < TAG -> 0 < BLOCK -> BLOCK < 2 ^ 32 ->
+  forall CHUNK TAG BLOCK LIMIT : N, 0 < CHUNK -> 0 < TAG -> CHUNK + TAG <= 2 ^ 31 -> 0 < BLOCK -> BLOCK < 2 ^ 32 ->
   forall (ks : N -> N -> N) (tagc : N -> bytes -> bytes), (forall (i : N) (c : bytes), len (tagc i c) = TAG) ->
   forall comp dec : bytes -> bytes, (forall x : bytes, dec (comp x) = x) ->
   forall (header plain : bytes) (nb : N),
@@ -257,7 +267,7 @@ Proof. exact stack_refines. Qed.
 
 (* opening the stack in the order of ArchiveReader::from_config *)
 Theorem C11_stack_open :
-  forall CHUNK TAG BLOCK LIMIT : N, 0 < CHUNK -> 0 < TAG -> 0 < BLOCK -> BLOCK < 2 ^ 32 ->
+  forall CHUNK TAG BLOCK LIMIT : N, 0 < CHUNK -> 0 < TAG -> CHUNK + TAG <= 2 ^ 31 -> 0 < BLOCK -> BLOCK < 2 ^ 32 ->
   forall (ks : N -> N -> N) (tagc : N -> bytes -> bytes), (forall (i : N) (c : bytes), len (tagc i c) = TAG) ->
   forall comp dec : bytes -> bytes, (forall x : bytes, dec (comp x) = x) ->
   forall (header plain : bytes) (nb : N),
@@ -492,17 +502,21 @@ Print Assumptions C11_tie_translated_raw_nonvacuous.
 From MLA Require SrcTie3Enc SrcTie3EncC.
 From MLAGen Require Src3e.
 (* the TRANSLATED EncryptionLayerReader (read; seek from start / current / end) behaves as a cursor over the
-   plaintext, over ANY inner stream that behaves as a cursor over its wire form; the two extra premises are the
-   u64 / i64 ranges of the Rust arithmetic (the D20 guard never fires inside the stream; its length fits an i64) *)
+   plaintext, over ANY inner stream that behaves as a cursor over its wire form; the two range premises are the
+   u64 / i64 ranges of the Rust arithmetic (the D20 guard never fires inside the stream; its length fits an i64) —
+   since work package fixenc the same two premises as the model theorem C11_enc_reader_refines, because the model now
+   has the guard and the range tests: the simulation C11_tie_enc_seek_sim is an EQUALITY for every state and every
+   seek argument (only premise: CHUNK_TAG_SIZE <= u64::MAX), and C11_tie_seek_start_guard_model_agrees /
+   C11_tie_seek_range_arms_model_agree replay the inputs on which model and source used to differ *)
 Theorem C11_enc_reader_refines_src :
-  forall (S : Stream) (CHUNK TAG : N) (ks : N -> N -> N) (tagc : N -> bytes -> bytes) (site_index site_unwrap : N),
+  forall (S : Stream) (CHUNK TAG : N) (ks : N -> N -> N) (tagc : N -> bytes -> bytes) (site_index : N),
     0 < CHUNK -> 0 < TAG -> (forall i c, len (tagc i c) = TAG) ->
   forall (plain : bytes) (Rin : st S -> N -> Prop),
     Refines S (enc_format CHUNK ks tagc plain) Rin ->
     nfull CHUNK (len plain) + 2 < 2 ^ 32 ->
     (len plain / CHUNK + 1) * (CHUNK + TAG) <= 2 ^ 64 - 1 -> len plain < 2 ^ 63 ->
   forall fuel,
-    Refines (SrcTie3EncC.EncReaderSrc S CHUNK TAG ks tagc site_index site_unwrap fuel) plain
+    Refines (SrcTie3EncC.EncReaderSrc S CHUNK TAG ks tagc site_index fuel) plain
       (fun x p => Renc CHUNK TAG ks tagc S plain Rin (SrcTie3Enc.abs S x) p).
 Proof. exact SrcTie3EncC.enc_reader_refines_src. Qed.
 Print Assumptions C11_enc_reader_refines_src.
@@ -554,10 +568,18 @@ Check SrcTie3EncC.translated_enc_reader_hyps.
 Theorem C11_tie_translated_enc_reader_hyps : ltac:(let t := type of SrcTie3EncC.translated_enc_reader_hyps in exact t).
 Proof. exact SrcTie3EncC.translated_enc_reader_hyps. Qed.
 Print Assumptions C11_tie_translated_enc_reader_hyps.
-Check SrcTie3EncC.seek_start_guard_model_differs.
-Theorem C11_tie_seek_start_guard_model_differs : ltac:(let t := type of SrcTie3EncC.seek_start_guard_model_differs in exact t).
-Proof. exact SrcTie3EncC.seek_start_guard_model_differs. Qed.
-Print Assumptions C11_tie_seek_start_guard_model_differs.
+Check SrcTie3Enc.eseek_start_guard_model.
+Theorem C11_tie_eseek_start_guard_model : ltac:(let t := type of SrcTie3Enc.eseek_start_guard_model in exact t).
+Proof. exact SrcTie3Enc.eseek_start_guard_model. Qed.
+Print Assumptions C11_tie_eseek_start_guard_model.
+Check SrcTie3EncC.seek_start_guard_model_agrees.
+Theorem C11_tie_seek_start_guard_model_agrees : ltac:(let t := type of SrcTie3EncC.seek_start_guard_model_agrees in exact t).
+Proof. exact SrcTie3EncC.seek_start_guard_model_agrees. Qed.
+Print Assumptions C11_tie_seek_start_guard_model_agrees.
+Check SrcTie3EncC.seek_range_arms_model_agree.
+Theorem C11_tie_seek_range_arms_model_agree : ltac:(let t := type of SrcTie3EncC.seek_range_arms_model_agree in exact t).
+Proof. exact SrcTie3EncC.seek_range_arms_model_agree. Qed.
+Print Assumptions C11_tie_seek_range_arms_model_agree.
 (* ---------- Tie A, level 1: compress.rs translated (work package compT, gen/Src3c.v) ---------- *)
 (* the translated CompressionLayerReader (read, seek, initialize, new) IS CompLayer's, for every stream / state / argument; the translated writer IS cw_write / cw_finalize; the refinement theorem holds of the translated reader *)
 From MLA Require SrcTie3Comp SrcTie3CompW SrcTie3CompCarry.
